@@ -799,7 +799,7 @@ func reverseOnly(a, b map[int][][][]Pt) bool {
 // ---------------------------------------------------------------------------------------------------
 func runC08(c *hc.Ctx) error {
 	c.CorrInit("Texel.Corr.C08", "theories/Corr/C08.v", 100)
-	c.Sum.Rule = "polygons valid or not on round grids (synthetic dyadic grids with deepest id 1-3; NetherlandsRDNewQuad ids 10-14 with coordinates on its 1e-10 lattice), every non-empty id subset of a random 3-element id set; distinct by (grid, polygon, flags); non-trivial = >= 2 ids and the polygon collapses at the coarsest"
+	c.Sum.Rule = "polygons valid or not on round grids (synthetic dyadic grids with deepest id 1-3, round grids with an odd deepest resolution of 9765625 units; NetherlandsRDNewQuad ids 10-14 with coordinates on its 1e-10 lattice), every non-empty id subset of a random 3-element id set; distinct by (grid, polygon, flags); non-trivial = >= 2 ids and the polygon collapses at the coarsest"
 	c.Sum.Oracle = "the result is keyed by requested ids only; the geometry returned for an id when requested alone is deeply equal to the geometry returned for it in every larger request"
 	var grids []*Grid
 	for _, g := range syntheticGrids() {
@@ -829,6 +829,10 @@ func runC08(c *hc.Ctx) error {
 					break
 				}
 			}
+		}
+		if i%5 == 4 { // round grids whose deepest resolution is an odd number of integer units
+			g, poly, kind = validCase(c, oddGrids(), 10)
+			kind = "odd-resolution grid: " + kind
 		}
 		cfg := randCfg(c.Rng)
 		cfg.IgnoreOutsideGrid = false
